@@ -1,7 +1,8 @@
 """C04 - Substitution is function composition and dependent variables are recovered."""
 from vx import core, v1types
 from vx.props import common
-from vx.units import evaluate as ev, substitute as su, fn_stubs as fs
+from vx.units import evaluate as ev, substitute as su, fn_stubs as fs, iters
+from vx.units import algebra as al
 
 
 def build(asm, tier):
@@ -23,19 +24,24 @@ def build(asm, tier):
     asm.raw(su.ZERO_SPEC)
     asm.file('spec/fn_algebra_rem.rs')
     asm.file('spec/fn_algebra.rs')
+    asm.extracted(al.sorted_ids_type(), 'sorted_ids.rs newtype SortedIds')
+    for sp in iters.ITER_SPECS:
+        asm.file(sp)
     asm.file('spec/substitute_spec.rs')
     asm.raw(su.SUBST_SPEC)
     asm.raw('} // mod lib\npub mod units {\n' + common.UNITS_USES + 'broadcast use super::lib::lemma_dep_ok_insert, super::lib::lemma_in_keys_drop_last, super::lib::lemma_in_keys_push, super::lib::lemma_in_keys_append_empty;\n')
     for u in (ev.linear_evaluate(), ev.quadratic_evaluate(), ev.polynomial_evaluate(), ev.function_evaluate()):
         asm.unit(u)
     asm.unit(ev.eval_dependencies())
-    asm.raw(fs.ADD + fs.MUL + su.FN_SUBST_STUBS, 'assumed callee contracts of Function::substitute')
+    for u in iters.iterator_units():
+        asm.unit(u)
+    asm.raw(fs.ADD + fs.MUL + iters.SORT_STUB + su.FN_SUBST_STUBS, 'assumed callee contracts of Function::substitute')
     for n, where in (('Function + Function', 'C02 (same preconditions: oneofs set, fn_coo_ok); purity naming r == fn_add(..) is assumed'),
                      ('Function * Function', 'C02 (same preconditions); purity naming r == fn_mul(..) is assumed'),
                      ('Function * Linear', 'C02 (macro instance impl_mul_from!(Function, Linear, Function))'),
-                     ('term iterator of &Function (fn_terms + axioms ax_fn_terms / ax_fn_terms_fin)', 'assumed (Box<dyn Iterator>: outside the dialect); exercised by the bounded stand-in'),
+                     ('name_terms: the list the term iterator yields for a message is a function of the message (purity naming fn_terms)', 'assumed; everything else about the term iterators is proved here on the real code (same units as C02; lemma_fn_terms / lemma_fn_terms_fin replace the former axioms)'),
                      ('Function::zero', 'C02'), ('From<f64> for Function', 'C02'), ('Linear::single_term', 'C13'),
-                     ('SortedIds::iter', 'assumed (Deref to a slice)')):
+                     ('SortedIds::iter', 'R13: Deref to a slice, `.iter()` enumerates the ids of the list in order (verified glue sorted_ids_to_vec over the extracted newtype)')):
         asm.stubs.append(dict(unit=n, proved_in=where))
     asm.unit(su.function_substitute())
     asm.raw(su.SUBST_STUBS, 'HashMap::iter_mut loop over the dependency functions and HashMap::extend as helpers')
@@ -49,10 +55,10 @@ proof fn vacuity_pre(d: Map<u64, v1::Function>, s: Map<u64, F64>) requires disj(
 ''', 'vacuity: precondition of eval_dependencies')
     asm.guard('''pub mod guard_c04c { use vstd::prelude::*; use super::lib::*;
 proof fn vacuity_subst(f: v1::Function, rep: Map<u64, v1::Function>, fss: Seq<Seq<v1::Function>>, m: Map<u64, F64>, m2: Map<u64, F64>)
-    requires fn_fin(f), rep_ok(rep), rep.len() != 0, fn_terms(f).len() > 0, fn_terms(f)[0].0@.len() > 0,
+    requires fn_fin(f), rep_ok(rep), fn_coo_ok(f), fn_titems_ok(fn_terms(f), f), rep.len() != 0, fn_terms(f).len() > 0, fn_terms(f)[0].0@.len() > 0,
         all_factors_ok(fn_terms(f), fss, rep, fn_terms(f).len() as int), acc_steps_ok(fn_terms(f), fss, fn_terms(f).len() as int),
         forall|i: int| 0 <= i < fn_terms(f).len() ==> composed_state(m2, m, rep, (#[trigger] fn_terms(f)[i]).0@),
-{ broadcast use ax_fn_terms, ax_fn_terms_fin, ax_zero_f64; assert(false); }
+{ broadcast use ax_zero_f64; lemma_fn_terms(f, m2); lemma_fn_terms_fin(f); lemma_substitute_value(f, rep, fss, m, m2); assert(false); }
 }
 ''', 'vacuity: premises of lemma_substitute_value and the term-list axioms')
     asm.raw(common.FOOTER)
@@ -61,7 +67,7 @@ proof fn vacuity_subst(f: v1::Function, rep: Map<u64, v1::Function>, fss: Seq<Se
         trusted_base=common.TRUSTED_COMMON + common.T4_COLLECTIONS + [
             'T4: HashMap::iter().collect() yields each entry exactly once in SOME order (helper hashmap_iter_collect): the proof holds for every iteration order',
             'T4: itertools::multizip (helper zip3)',
-            'T5 ASSUMED for Function::substitute: operator contracts Function+Function, Function*Function, Function*Linear (pure, value up to an explicit remainder), the term iterator (axioms ax_fn_terms), Function::zero, From<f64>, Linear::single_term',
+            'T5 ASSUMED for Function::substitute: operator contracts Function+Function, Function*Function, Function*Linear (pure, value up to an explicit remainder), the purity naming of the term list (name_terms; the term iterators themselves are verified units, R31), Function::zero, From<f64>, Linear::single_term',
             'T5 ASSUMED for Instance::substitute: the HashMap::iter_mut loop over the dependency functions and HashMap::extend are helpers with the obvious contracts (the loop body is one call of Function::substitute)',
         ],
         assumptions=common.A1 + ['precondition taken from the property: dependent-variable ids are not keys of the state passed in (Instance::evaluate passes the user state extended by substituted values)'] + common.A_COO,
